@@ -255,8 +255,12 @@ fn check_type_relation<T: TypeLookup>(
     self_stack: &mut Vec<usize>,
     type_stack: &mut Vec<usize>,
 ) -> bool {
-    // Fast path: same ID always satisfies the relation
-    if self_id == pattern_id {
+    // Fast path: the same ID is the same type — provided its back-references mean the same on
+    // both sides, i.e. the two sides sit below the same enclosing types. (`#((F | ^) -> R)` taken
+    // from two different function types shares the id of its parameter union, but the `^` inside
+    // refers to a different function on each side.) For overlap the optimistic answer is the
+    // safe one, so there the same ID always overlaps itself.
+    if self_id == pattern_id && (mode == UnionMode::Any || self_stack == type_stack) {
         return true;
     }
 
@@ -413,7 +417,7 @@ fn check_type_relation<T: TypeLookup>(
         // share a value iff every field can). Recursing rather than comparing ids lets ANY mode
         // see that, e.g., `[Rational, 'n]` overlaps `[Rational, 'int]`.
         (Type::Tuple(id1), Type::Tuple(id2)) => {
-            if id1 == id2 {
+            if id1 == id2 && (mode == UnionMode::Any || self_stack == type_stack) {
                 return true;
             }
 
